@@ -711,6 +711,17 @@ func (e *Engine) bindContracts() error {
 			}
 			continue
 		}
+		if strings.HasPrefix(name, "dyn:") {
+			parts := strings.SplitN(strings.TrimPrefix(name, "dyn:"), ".", 2)
+			if len(parts) == 2 {
+				if t := e.lookupNamedType(nil, parts[0], parts[1]); t != nil {
+					if sg, ok := t.Underlying().(*types.Signature); ok {
+						c.Sig = sg
+						continue
+					}
+				}
+			}
+		}
 		// interface method: (pkg.Iface).Method
 		if m := regexp.MustCompile(`^\(([A-Za-z0-9_/]+)\.([A-Za-z0-9_]+)\)\.([A-Za-z0-9_]+)$`).FindStringSubmatch(name); m != nil {
 			t := e.lookupNamedType(nil, m[1], m[2])
